@@ -23,17 +23,57 @@ mod verif_kani_resp_codec {
         (a, len)
     }
 
+    // ---- stubs (error-message rendering only; see file header)
+    fn fmt_format_stub(_args: core::fmt::Arguments<'_>) -> String { String::new() }
+    fn fmt_write_stub(_out: &mut dyn core::fmt::Write, _args: core::fmt::Arguments<'_>) -> core::fmt::Result { Ok(()) }
+    fn fmt_pad_stub<'a>(_f: &mut core::fmt::Formatter<'a>, _s: &str) -> core::fmt::Result where 'a: 'a { Ok(()) }
+
+    // memchr crate (runtime CPU-feature dispatch uses inline asm, unsupported by Kani): first index of the byte, by a loop
+    fn memchr_stub(needle: u8, haystack: &[u8]) -> Option<usize> {
+        let mut i = 0;
+        while i < haystack.len() {
+            if haystack[i] == needle {
+                return Some(i);
+            }
+            i += 1;
+        }
+        None
+    }
+
+    fn cpuid_stub(_leaf: u32, _sub_leaf: u32) -> core::arch::x86_64::CpuidResult {
+        core::arch::x86_64::CpuidResult { eax: 0, ebx: 0, ecx: 0, edx: 0 }
+    }
+
     // @harness: h_codec_total_n4
     // @bound: probe
     // @tier: quick
     // @complete: false
     #[kani::proof]
     #[kani::unwind(8)]
+    #[kani::stub(memchr::memchr::memchr, memchr_stub)]
+    #[kani::stub(alloc::fmt::format, fmt_format_stub)]
+    #[kani::stub(core::fmt::write, fmt_write_stub)]
+    #[kani::stub(core::fmt::Formatter::pad, fmt_pad_stub)]
     fn h_codec_total_n4() {
         let (buf, len) = any_input::<4>();
         let s = &buf[..len];
         if let Ok((_, n)) = RespCodec::try_parse(s) {
             assert!(0 < n && n <= len);
         }
+    }
+
+    // @harness: h_probe_memchr
+    // @bound: probe
+    // @tier: quick
+    // @complete: false
+    #[kani::proof]
+    #[kani::unwind(8)]
+    #[kani::stub(core::core_arch::x86::cpuid::__cpuid_count, cpuid_stub)]
+    fn h_probe_memchr() {
+        let (buf, len) = any_input::<4>();
+        let r = memchr::memchr(b'\r', &buf[..len]);
+        if let Some(i) = r { assert!(buf[i] == b'\r'); }
+        let r2 = RespCodec::find_crlf(&buf[..len]);
+        if let Some(i) = r2 { assert!(buf[i] == b'\r'); }
     }
 }
